@@ -189,7 +189,7 @@ theorem wf_append (w : World) (hwf : w.WF) (ns : List (List SigVal)) (nr : List 
 
 def isViewOp : Op → Bool
   | .vLinear .. | .vLazy .. | .vZip .. | .vMulti .. | .vStandalone .. | .vSbt .. | .vLca .. | .vSbtLoad ..
-  | .vSqlite .. | .vLcaLoad .. | .vInsert .. | .vSelect .. | .vSelectPick .. => true
+  | .vSqlite .. | .vLcaLoad .. | .vInsert .. | .vSelect .. | .vSelectPick .. | .vZipGroups .. => true
   | _ => false
 
 /-- every other operation leaves views, rows and stores exactly as they were -/
@@ -403,6 +403,25 @@ theorem wf_step_view (w : World) (hwf : w.WF) (op : Op) (h : isViewOp op = true)
       · exact hwf
     · exact hwf
   case vZip r m ss =>
+    simp only [step]; split
+    · next vs _ =>
+      split
+      · exact hwf
+      · split
+        · have hw1 := wf_append w hwf [vs] (diskRows w.stores.length vs true) (by
+            intro row hrow
+            obtain ⟨h1, i, h2⟩ := mem_diskRows _ _ _ _ hrow
+            exact ⟨(by intro c hc; rw [h1] at hc; cases hc),
+                   (by intro st j hl; rw [h2] at hl; cases hl; simp)⟩)
+          refine wf_viewFresh _ hw1 r _ ⟨by simp, by simp, ?_, ?_⟩
+          · intro x hx
+            have := mem_rowIdsFrom _ _ _ hx
+            simpa using this
+          · intro _; simp
+        · have hw1 := wf_appendStore w hwf [vs]
+          exact wf_viewFresh _ hw1 r _ ⟨by simp, by simp, by simp, by intro _; simp⟩
+    · exact hwf
+  case vZipGroups r m k ss =>
     simp only [step]; split
     · next vs _ =>
       split
@@ -741,6 +760,68 @@ theorem view_obs_stable' (hsrc : SourceOk) (w : World) (hwf : w.WF) (op : Op) (c
         · simp only [deps, hk, List.mem_filterMap]
           exact ⟨r, hr, by simp [hrow, hsg]⟩
         · exact (hwf.rows r row hrow).1 cs hsg
+
+theorem any_congr' {α : Type} (f g : α → Bool) (l : List α) (h : ∀ x, x ∈ l → f x = g x) : l.any f = l.any g := by
+  induction l with
+  | nil => rfl
+  | cons a l ih =>
+    simp only [List.any_cons, h a List.mem_cons_self, ih (fun x hx => h x (List.mem_cons_of_mem _ hx))]
+
+/-- the other answers of a view — `len(view)`, `ss in view.manifest` for EVERY sketch, and the containment search with the
+    dump's probe query (when the probe is still the same signature) — are stable under exactly the same conditions -/
+theorem view_answers_stable' (hsrc : SourceOk) (w : World) (hwf : w.WF) (op : Op) (c : Nat) (vc : ViewCell)
+    (hc : w.views.cells[c]? = some vc)
+    (hv : ∀ v cv, viewReceiver op = some v → w.views.cid v = some cv → cv ≠ c ∧ (vc.kind = .lazy → cv ≠ vc.db))
+    (hs : ∀ s cs, sigReceiver op = some s → w.sigs.cid s = some cs → cs ∉ deps w vc) :
+    viewLen (step w op).1 vc = viewLen w vc ∧ (∀ m, viewMember (step w op).1 vc m = viewMember w vc m) ∧
+    (probeOf (step w op).1 = probeOf w → viewFind (step w op).1 vc = viewFind w vc) := by
+  have hobs := (view_obs_stable' hsrc w hwf op c vc hc hv hs).2
+  obtain ⟨o1, o2, o3, o4⟩ := hwf.views c vc hc
+  have hsig : ∀ x, x ∈ deps w vc → x < w.sigs.cells.length →
+      (step w op).1.sigs.cells[x]? = w.sigs.cells[x]? := by
+    intro x hx hlt
+    apply sig_cell_stable hsrc w op x hlt
+    intro s hr e
+    exact hs s x hr e hx
+  have hrows : ∀ r, r ∈ vc.rows → (step w op).1.rows[r]? = w.rows[r]? :=
+    fun r hr => row_stable' hsrc w op r (o3 r hr)
+  have hstore : vc.kind.usesStore = true → (step w op).1.stores[vc.store]? = w.stores[vc.store]? :=
+    fun hu => store_stable' hsrc w op vc.store (o4 hu)
+  have hcells : (vc.kind = .linear ∨ vc.kind = .sbt) →
+      sigCellsOf (step w op).1 vc.sigs = sigCellsOf w vc.sigs := by
+    intro hk
+    apply sigCellsOf_congr
+    intro x hx
+    apply hsig x _ (o1 x hx)
+    rcases hk with hk | hk <;> simp [deps, hk, hx]
+  refine ⟨?_, ?_, ?_⟩
+  · cases hk : vc.kind <;> simp only [viewLen, hk]
+    case linear => rw [hcells (.inl hk)]
+    case sbt => rw [hcells (.inr hk)]
+    case lazy => rw [hobs]
+    case zipnm => rw [hobs]
+    case sqlite => rw [hobs]
+    case lcasql => rw [hobs]
+    case sbtdisk => rw [hstore (by simp [hk, VKind.usesStore])]
+  · intro m
+    cases hk : vc.kind <;> simp only [viewMember, hk]
+    case zipm =>
+      congr 1; apply any_congr'; intro r hr; rw [hrows r hr]
+    case multi =>
+      congr 1; apply any_congr'; intro r hr; rw [hrows r hr]
+    case standalone =>
+      congr 1; apply any_congr'; intro r hr; rw [hrows r hr]
+    case sbtdisk => rw [hstore (by simp [hk, VKind.usesStore])]
+    case sqlite => rw [hstore (by simp [hk, VKind.usesStore])]
+    case lcasql => rw [hstore (by simp [hk, VKind.usesStore])]
+  · intro hp
+    unfold viewFind
+    rw [hp, hobs]
+    by_cases hk : vc.kind = .sbt
+    · rw [hcells (.inr hk)]
+    · have : (vc.kind == VKind.sbt) = false := by
+        cases hkk : vc.kind <;> simp_all
+      simp only [this, Bool.false_and]
 
 /-! ### what loaders hand out -/
 
